@@ -37,8 +37,8 @@ type tierCfg struct {
 }
 
 var tiers = map[string]map[string]tierCfg{
-	"C13": {"quick": {30000, 25, 20, 6, 1500}, "thorough": {6000000, 900, 30, 240, 4000}},
-	"C12": {"quick": {20000, 25, 20, 0, 1500}, "thorough": {4000000, 900, 30, 0, 4000}},
+	"C13": {"quick": {200000, 25, 20, 6, 1500}, "thorough": {6000000, 900, 30, 240, 4000}},
+	"C12": {"quick": {150000, 25, 20, 0, 1500}, "thorough": {4000000, 900, 30, 0, 4000}},
 	"C02": {"quick": {6000, 30, 20, 0, 600}, "thorough": {1500000, 1200, 30, 0, 1500}},
 	"C16": {"quick": {3000, 30, 20, 0, 600}, "thorough": {600000, 1200, 30, 0, 1500}},
 	"C14": {"quick": {4000, 25, 20, 6, 600}, "thorough": {800000, 900, 30, 240, 1500}},
